@@ -12,6 +12,7 @@
 //! Exit status: 0 property held on everything explored, 1 violation (a line
 //! `VIOLATION property=<id> replay=<path>` is printed), 2 harness error (never a verdict).
 
+mod alloc;
 mod batch;
 mod c01;
 mod c10;
@@ -28,6 +29,9 @@ mod rng;
 mod scale;
 mod supervise;
 mod trace;
+
+#[global_allocator]
+static GLOBAL: alloc::Counting = alloc::Counting;
 
 use batch::Config;
 use json::J;
@@ -235,7 +239,7 @@ fn replay(path: &str, supervised: bool) -> i32 {
                 1
             }
             None => {
-                println!("replay of {path}: no violation ({}; {} seam ticks, {} work ticks, {} chars)", o.summary, o.ticks, o.work, o.n_chars);
+                println!("replay of {path}: no violation ({}; {} seam ticks, {} work ticks, {} bytes peak, {} chars)", o.summary, o.ticks, o.work, o.mem_peak, o.n_chars);
                 0
             }
         },
